@@ -19,6 +19,7 @@ func init() {
 		c13NoPartialFrames(c)
 		c13WholePayload(c)
 		c13KindBit(c)
+		wtPeekValidity(c, "C13.3b")
 		c14LengthForms(c) // C13.4 = C14.1-3
 		c13BufferOwnership(c)
 		c13Prepared(c)
@@ -27,6 +28,7 @@ func init() {
 	register("C14", func(c *core.Ctx, tier string) {
 		c14LengthForms(c)
 		c14DecoderNoExtraRejection(c)
+		wtPeekValidity(c, "C14.2c")
 		c13NoPartialFrames(c) // C14.4: one frame per message
 		c13WholePayload(c)
 		c14WriteOnlyTwoBuffers(c)
@@ -309,13 +311,15 @@ func c14LengthForms(c *core.Ctx) {
 		lt64 := g.EdgeDominates(t64k.br.B, 1-t64k.ge, l)
 		ge126 := g.EdgeDominates(t126.br.B, t126.ge, l)
 		lt126 := g.EdgeDominates(t126.br.B, 1-t126.ge, l)
+		// 126 < 65536, so "below 126" implies "below 65536" and ">= 65536" implies ">= 126":
+		// the outer arms need only their own threshold, whatever the order of the tests
 		switch {
 		case ge64:
 			return "64bit"
+		case lt126:
+			return "7bit"
 		case lt64 && ge126:
 			return "16bit"
-		case lt64 && lt126:
-			return "7bit"
 		}
 		return ""
 	}
